@@ -23,7 +23,8 @@ namespace tc {
         memset(&t, 0, sizeof t);
         t.it_value.tv_sec = ms / 1000;
         t.it_value.tv_usec = (ms % 1000) * 1000;
-        setitimer(ITIMER_REAL, &t, nullptr);
+        // CPU time of this process, not wall-clock time: a loaded machine must not produce TIMEOUTs
+        setitimer(ITIMER_VIRTUAL, &t, nullptr);
     }
 
     inline void enc(unsigned char c)
@@ -62,6 +63,7 @@ namespace tc {
 
     inline void failed(int rc)
     {
+        vh::armed = 0;
         arm(0);
         print_fail(rc);
         putchar('\n');
@@ -81,8 +83,10 @@ namespace tc {
         char* first = prepare(len);
         int rc = sigsetjmp(jb, 1);
         if (rc == 0) {
-            arm(400);
+            arm(1500);
+            vh::armed = 1;
             std::to_chars_result r = f(first, first + len);
+            vh::armed = 0;
             arm(0);
             dump(r, first, len);
             putchar('\n');
@@ -173,7 +177,8 @@ namespace tc {
         char* first = prepare(std::max(cap, 0));
         int rc = sigsetjmp(jb, 1);
         if (rc == 0) {
-            arm(400);
+            arm(1500);
+            vh::armed = 1;
             auto st = cnl::to_chars_static(x);
             std::string s;
             if constexpr (is_scaled<T>)
@@ -189,6 +194,7 @@ namespace tc {
                     os << x;
             }
             std::to_chars_result r = cnl::to_chars(first, first + std::max(cap, 0), x);
+            vh::armed = 0;
             arm(0);
             printf("%d:", st.length);
             enc(st.chars.data(), st.chars.size());
@@ -202,6 +208,29 @@ namespace tc {
             putchar('\n');
         } else
             failed(rc);
+    }
+
+    // to_chars_static<Base>(integer): the capacity is computed for base 10 whatever the base
+    template<class T, int Base>
+    void fixb_sweep(std::vector<T> const& values)
+    {
+        for (T v : values) {
+            printf("%s fixb %s %d ", table, tn<T>().c_str(), Base);
+            prv(v);
+            fputs(" => ", stdout);
+            int rc = sigsetjmp(jb, 1);
+            if (rc == 0) {
+                arm(1500);
+                vh::armed = 1;
+                auto st = cnl::to_chars_static<Base>(v);
+                vh::armed = 0;
+                arm(0);
+                printf("%d:", st.length);
+                enc(st.chars.data(), st.chars.size());
+                putchar('\n');
+            } else
+                failed(rc);
+        }
     }
 
     template<class T, class V>
@@ -246,9 +275,20 @@ namespace tc {
         }
     }
 
+    inline void on_vtalrm(int)
+    {
+        if (!vh::armed) return;  // the timer fired after the call had returned
+        siglongjmp(jb, SIGALRM);
+    }
+
     inline void init()
     {
         install();
+        struct sigaction sa;
+        memset(&sa, 0, sizeof sa);
+        sa.sa_handler = on_vtalrm;
+        sa.sa_flags = SA_NODEFER;
+        sigaction(SIGVTALRM, &sa, nullptr);
         if (char const* t = getenv("VH_TABLE")) table = t;
     }
 }
